@@ -89,6 +89,8 @@ def build_ops(rng, spec):
 def run(res, replay=None):
     # pinned reading of the assembly of the SFS statistics (moment layout, cov, corr, get_cov, bin indices): re-check the CURRENT source against it and proofs/GenSfsEquiv.v
     import translate_step; (res.proof is not None) and translate_step.run(res.proof, pid=res.pid, tie='sfs')
+    # pinned reading of phasegen/utils.py (parallelize is the ordered map the SFS assembly assumes): re-check the CURRENT source against it and proofs/GenUtilsEquiv.v
+    import translate_step; (res.proof is not None) and translate_step.run(res.proof, pid=res.pid, tie='utils')
     # structural tie of the propagation loops (_accumulate, cdf) of phasegen/distributions.py: translate the CURRENT source and re-check proofs/GenLoopsEquiv.v
     import translate_step; (res.proof is not None) and translate_step.run(res.proof, pid=res.pid, tie='loops')
     # structural tie of the moment assembly (accumulate: centring, permutation average - what get_cov runs): translate the CURRENT source and re-check proofs/GenMomentsEquiv.v
